@@ -1,5 +1,7 @@
 import VibeProof.Model.BinCodec
 import VibeProof.Lemmas.BinCodec
+import VibeProof.Model.BinTypes
+import VibeProof.Lemmas.BinTypes
 /-
 C20 — loading damaged database files fails cleanly (binary format, byte level).
 
@@ -143,5 +145,110 @@ theorem C20_zero_column_rows_consume_nothing (n : Nat) (inp : Bytes) :
     rw [bind_def, bind_res_ok (a := ([] : Row)) (rest := inp) rfl,
       bind_def, bind_res_ok ih]
     rfl
+
+/-! ### column type texts read from a (possibly damaged) catalog: `parse_data_type`
+
+`parseDataType` (Model/BinTypes.lean) is total by construction: every branch of the code uses
+`parts.first()` / `parts.get(1)` / `unwrap_or`, mirrored by `[i]?` / `getD`.  The theorems below
+say what that buys: whatever follows a recognised prefix, the result is a type (never a failure
+inside the branch), and the texts `format_data_type` writes for the re-readable types come back
+as the same type for every parameter value. -/
+
+open VibeProof.BinTypes
+
+/-- `split(',')` always yields at least one part — why `parts.first()` cannot fail -/
+theorem C20_split_nonempty (s : List Char) : splitComma s ≠ [] := splitComma_nonempty s
+
+/-- … but without a comma there is no second part: `parts.get(1)` is `None`, and an
+    unconditional `parts[1]` would be out of bounds exactly on these inputs -/
+theorem C20_split_second_part_absent (s : List Char) (h : ∀ c ∈ s, (c == ',') = false) :
+    (splitComma s)[1]? = none := by
+  rw [splitComma_noComma s h]; rfl
+
+example : (splitComma "10  2".toList)[1]? = none := by decide
+
+/-- whatever bytes follow `NUMERIC(` / `DECIMAL(` (missing comma, missing digits, garbage), the
+    branch yields a NUMERIC / DECIMAL type with both parameters in `u8` range -/
+theorem C20_parseType_numeric_prefix_total (rest : List Char) :
+    (∃ p s, parseDataType ("NUMERIC(".toList ++ rest) = some (.numeric p s) ∧ p ≤ 255 ∧ s ≤ 255) ∧
+    (∃ p s, parseDataType ("DECIMAL(".toList ++ rest) = some (.decimal p s) ∧ p ≤ 255 ∧ s ≤ 255) := by
+  refine ⟨⟨_, _, parse_numeric_prefix rest, precScale_le _⟩, ⟨_, _, parse_decimal_prefix rest, precScale_le _⟩⟩
+
+/-- the same for the one-parameter prefixes: always a type, never a failure -/
+theorem C20_parseType_single_prefix_total (rest : List Char) :
+    (∃ m, parseDataType ("VARCHAR(".toList ++ rest) = some (.varchar m)) ∧
+    (∃ n, parseDataType ("CHAR(".toList ++ rest) = some (.character n)) ∧
+    (∃ n, parseDataType ("FLOAT(".toList ++ rest) = some (.float n)) :=
+  ⟨⟨_, parse_varchar_prefix rest⟩, ⟨_, parse_char_prefix rest⟩, ⟨_, parse_float_prefix rest⟩⟩
+
+/-- the column types whose catalog text identifies them, with the parameter ranges of the Rust
+    fields (`u8` precision / scale, `usize` lengths) -/
+def Rereadable : DataType → Prop
+  | .integer | .smallint | .bigint | .unsigned | .real | .double | .boolean | .date => True
+  | .time tz => tz = false
+  | .timestamp _ => True
+  | .varchar none => True
+  | .varchar (some n) => n ≤ usizeMax
+  | .character n => n ≤ usizeMax
+  | .float p => p ≤ 255
+  | .numeric p s => p ≤ 255 ∧ s ≤ 255
+  | .decimal p s => p ≤ 255 ∧ s ≤ 255
+  | _ => False
+
+/-- **round trip of the catalog type text, all parameter values**:
+    `parse_data_type (format_data_type t) = t` for every re-readable type -/
+theorem C20_type_text_roundtrip (t : DataType) (h : Rereadable t) :
+    parseDataType (formatDataType t) = some t := by
+  cases t with
+  | numeric p s => exact roundtrip_numeric p s h.1 h.2
+  | decimal p s => exact roundtrip_decimal p s h.1 h.2
+  | float p => exact roundtrip_float p h
+  | character n => exact roundtrip_char n h
+  | varchar m =>
+    cases m with
+    | none => decide
+    | some n => exact roundtrip_varchar n h
+  | time tz => cases tz <;> first | decide | exact absurd h (by simp [Rereadable])
+  | timestamp tz => cases tz <;> decide
+  | integer => decide
+  | smallint => decide
+  | bigint => decide
+  | unsigned => decide
+  | real => decide
+  | double => decide
+  | boolean => decide
+  | date => decide
+  | clob => exact absurd h (by simp [Rereadable])
+  | name => exact absurd h (by simp [Rereadable])
+  | interval a b => exact absurd h (by simp [Rereadable])
+  | blob => exact absurd h (by simp [Rereadable])
+  | bit l => exact absurd h (by simp [Rereadable])
+  | userDefined n => exact absurd h (by simp [Rereadable])
+  | null => exact absurd h (by simp [Rereadable])
+
+example : Rereadable (.numeric 255 0) ∧ Rereadable (.varchar (some usizeMax)) ∧
+    Rereadable (.timestamp true) :=
+  ⟨⟨by decide, by decide⟩, Nat.le_refl _, trivial⟩
+
+/-- outside that class the statement is false (the C18 findings): the text of these types is
+    rejected or read as another type -/
+theorem C20_type_text_roundtrip_counterexample :
+    ¬ (∀ t : DataType, parseDataType (formatDataType t) = some t) := by
+  intro h
+  exact absurd (h (.interval .year (some .month))) (by decide)
+
+/-- near-miss texts of the corruption dictionary: each is a type or a clean rejection -/
+theorem C20_near_miss_texts :
+    parseDataType "NUMERIC(10  2)".toList = some (.numeric 38 0) ∧
+    parseDataType "NUMERIC(10".toList = some (.numeric 10 0) ∧
+    parseDataType "NUMERIC(".toList = some (.numeric 38 0) ∧
+    parseDataType "DECIMAL(,)".toList = some (.decimal 38 0) ∧
+    parseDataType "NUMERIC(999, 2)".toList = some (.numeric 38 2) ∧
+    parseDataType "VARCHAR(".toList = some (.varchar none) ∧
+    parseDataType "CHAR(x)".toList = some (.character 1) ∧
+    parseDataType "FLOAT(256)".toList = some (.float 53) ∧
+    parseDataType "TIMESTAMP(".toList = none ∧
+    parseDataType "INTERVAL YEAR TO".toList = none ∧
+    parseDataType "".toList = none := by decide
 
 end VibeProof.C20
